@@ -3466,3 +3466,47 @@ func (e *Env) RFileOf() {
 	})
 	e.Run.Analysed("R-RESOLVE fileOf returns inside the package loop", n)
 }
+
+// RMergeAppendGuard (R-MERGE): what decorateSelectorExpr merged is appended to the identifier
+// whenever there is something to append: an `Append(v...)` on the new identifier's decorations
+// sits under no condition, or under `len(v) > 0` (`!= 0`); never under the opposite test.
+func (e *Env) RMergeAppendGuard() {
+	pkg := e.Prog.Pkg(load.PkgDecorator)
+	c := e.Sib.Ctx[load.PkgDecorator]
+	fd := load.FuncDecl(pkg, "fileDecorator", "decorateSelectorExpr")
+	if fd == nil || fd.Body == nil {
+		return
+	}
+	n := 0
+	ast.Inspect(fd.Body, func(nd ast.Node) bool {
+		call, ok := nd.(*ast.CallExpr)
+		if !ok || len(call.Args) != 1 || !call.Ellipsis.IsValid() {
+			return true
+		}
+		se, ok := call.Fun.(*ast.SelectorExpr)
+		if !ok || se.Sel.Name != "Append" || !strings.Contains(types.ExprString(se.X), ".Decs.") {
+			return true
+		}
+		v := types.ExprString(call.Args[0])
+		n++
+		pc, okp := pathCond(c, fd.Body.List, call)
+		good := okp
+		for _, cj := range flatConjuncts(orTrue(pc)) {
+			cj = strings.TrimSpace(cj)
+			if !strings.Contains(cj, "len("+v+")") {
+				continue
+			}
+			if cj != "len("+v+") > 0" && cj != "len("+v+") != 0" && cj != "0 < len("+v+")" && cj != "len("+v+") >= 1" {
+				good = false
+			}
+		}
+		// a negated length test leaves no positive conjunct: look at the raw text as well
+		if strings.Contains(pc, "!(len("+v+") > 0)") || strings.Contains(pc, "len("+v+") == 0") || strings.Contains(pc, "len("+v+") <= 0") {
+			good = false
+		}
+		e.Run.Check("R-MERGE", "decorateSelectorExpr appends "+types.ExprString(se.X)+" whenever the merge produced something", e.Prog.Pos(call.Pos()), good,
+			"the merged decorations are appended under «"+pc+"»: comments and line breaks around the dot of a qualified identifier are dropped exactly when there are some")
+		return true
+	})
+	e.Run.Analysed("R-MERGE appends of merged decorations", n)
+}
